@@ -79,6 +79,10 @@ CHECKS["C14"] = dict(level="model_checking", design="4/C14, 3.2", technique="byt
     text="spec/Dsl.tla defines PrintM(M, on) with byte order on strings, sortByModule and the stable sorts in the specification itself; TLC enumerates a model of 2 types / 3 relations / 2 conditions under every combination of (module, file) attribution from a pool (empty module with file, file names with blank, '#', ', file:') and checks StripComments(PrintM(M, TRUE)) = PrintM(M, FALSE). For each model the real printer is called from 4-10 shuffled JSON key orders x permuted type definitions x 3 repetitions x both option values: all outputs must be byte-identical and equal to TLC's text (the documented order); stripping comments of the source-info output must give the plain output and both must parse to the model.",
     note="Trusted: TLC, PrintM as the documented order. Module and file names are single-line. Type definitions are permuted only for modular models.")
 
+CHECKS["C19"] = dict(level="other", design="4/C19, 8", technique="recorded configuration state of the generated artefacts of the three packages compared by TLC (Artefacts.tla); behavioural half for Go through documents rendered from the layout specification",
+    text="The harness extracts, without executing JS or Java, the serialized lexer and parser ATNs (Go int32 literals, TS number literals, Java 16-bit word strings decoded), rule / literal / symbolic names, .interp and .tokens files, the declarations of OpenFGALexer.g4 / OpenFGAParser.g4 (rules incl. fragments, literals, modes, per-rule reference sets), the same reference sets read from the serialized Go ATN, and the listener callbacks of the Go transformer; TLC checks ArtefactsAgree, VocabularyMatchesGrammar, RuleBodiesMatchATN, ListenerCallbacksExist. Because a hand edit of the generated Go parser code leaves its ATN untouched, TLC also renders documents with each of the 6 keyword-identifiers in each identifier position and the Go parser must accept them with the tree the grammar prescribes.",
+    note="Level 'other': TLC is a comparator of recorded state here. JS / Java runtimes and the ANTLR tool are not available offline: 'accept the same texts' rests on ATN equality for them; grammar -> ATN is compared through vocabularies and per-rule reference sets, not every conceivable body edit.")
+
 NOT_YET = "check not built yet in this round (see DESIGN.md section 9 for the order of work)"
 
 
